@@ -200,4 +200,8 @@ func ParseMultipartForm(r io.Reader, request *Request, size, maxInMemoryFileSize
 func SetMultipartFormWithBoundary(req *Request, m *multipart.Form, boundary string) {
 	req.multipartForm = m
 	req.multipartFormBoundary = boundary
+	// The files and fields given as readers are in the form now, their readers are
+	// used up: another write of the request (a retry, a redirect) takes the form.
+	req.multipartFiles = nil
+	req.multipartFields = nil
 }
